@@ -94,7 +94,7 @@ def can_act(agent, algo):
 
 
 class Runner:
-    def __init__(self, algo, family, nslots=4, seed=0, shared_hp=False):
+    def __init__(self, algo, family, nslots=4, seed=0, shared_hp=False, wrapped=False):
         self.algo, self.family, self.nslots, self.seed = algo, family, nslots, seed
         self.slots = [None] * (nslots + 1)
         self.ids = proj.Ids()
@@ -103,6 +103,7 @@ class Runner:
         self.dir = tempfile.mkdtemp(prefix="evo-")
         self.shared_hp = zoo.hp_config(algo) if shared_hp else None
         self.mutations = {}
+        self.wrapped = wrapped
 
     def close(self):
         shutil.rmtree(self.dir, ignore_errors=True)
@@ -187,6 +188,9 @@ class Runner:
             ag = zoo.make_agent(algo, self.family, seed=seed, index=s - 1, hp=hp)
             if self.shape is None:
                 self.shape = shape_of(ag)
+            if self.wrapped:
+                from agilerl.wrappers.agent import RSNorm
+                ag = RSNorm(ag)
             self.slots[s] = ag
         elif op[0] == "clone":
             _, a, c, idx = op
@@ -224,6 +228,15 @@ class Runner:
                 hs[s - 1] = hpn.index(ag.mut) + 1 if ag.mut in hpn else 0
             e["hs"] = hs
             e["can_act"] = all(can_act(ag, algo) for ag in out)
+        elif op[0] == "act":
+            _, a = op
+            e["a"] = a
+            ag = self.slots[a]
+            zoo.seed_all(self.seed * 17 + len(self.ev))
+            g = torch.Generator().manual_seed(len(self.ev))
+            obs = zoo.sample_obs(ag.observation_space, 4, g) if algo not in zoo.MULTI else zoo.probe_obs(ag, algo)
+            ag.set_training_mode(True) if hasattr(ag, "set_training_mode") else None
+            ag.get_action(obs)
         elif op[0] == "book":
             _, a = op
             e["a"] = a
@@ -238,7 +251,8 @@ class Runner:
         elif op[0] == "loadnew":
             _, f, c = op
             e.update({"f": f, "c": c, "a": c})
-            cls = type(self.slots[[s for s in range(1, self.nslots + 1) if self.slots[s] is not None][0]])
+            first = self.slots[[s for s in range(1, self.nslots + 1) if self.slots[s] is not None][0]]
+            cls = type(getattr(first, "agent", first)) if self.wrapped else type(first)
             self.slots[c] = cls.load(os.path.join(self.dir, f"f{f}.pt"))
         elif op[0] == "loadinto":
             _, f, a = op
@@ -254,12 +268,12 @@ class Runner:
             raise ValueError(op)
 
     def trace(self):
-        return {"cfg": {"algo": self.algo, "family": self.family, "shape": self.shape, "NSlots": self.nslots}, "ev": self.ev}
+        return {"cfg": {"algo": self.algo + ("+RSNorm" if self.wrapped else ""), "family": self.family, "shape": self.shape, "NSlots": self.nslots}, "ev": self.ev}
 
 
-def run_script(algo, family, ops, nslots=4, seed=0, shared_hp=False):
+def run_script(algo, family, ops, nslots=4, seed=0, shared_hp=False, wrapped=False):
     torch.set_num_threads(1)
-    r = Runner(algo, family, nslots, seed, shared_hp)
+    r = Runner(algo, family, nslots, seed, shared_hp, wrapped)
     try:
         return r.run(ops)
     finally:
